@@ -91,9 +91,13 @@ func (m *Module) handleEntityDelete(ctx context.Context, respond hwebsocket.Resp
 		return err
 	}
 
-	if _, ok := m.currentSession.EntityByID(req.EntityId); !ok {
-		m.state.RemoveAssetInstance(req.EntityId)
-	}
+	// The look-up and the removal are one step for SetAssetInstance: the id may
+	// be the one of an entity that is created, and given an asset instance, in
+	// the meantime (any participant can ask for the deletion of any id).
+	m.state.RemoveAssetInstanceUnless(req.EntityId, func() bool {
+		_, ok := m.currentSession.EntityByID(req.EntityId)
+		return ok
+	})
 
 	return nil
 }
